@@ -2,7 +2,7 @@
 
 PROP = dict(
     level="proof",
-    lean_modules=["PopsModel.Props.C14"],
+    lean_modules=["PopsModel.Props.C14", "PopsModel.Props.NonVacuous.KernelsReal"],
     theorems=["Pops.C14_quota", "Pops.C14_picks_in_window", "Pops.C14_equal_share", "Pops.C14_mirror",
               "Pops.C14_mirror_weight", "Pops.C14_reset", "Pops.C14_fresh_run", "Pops.C14_window", "Pops.C14_distance",
               "Pops.C14_quantile_cauchy", "Pops.C14_quantile_exponential", "Pops.C14_quantile_weibull",
